@@ -105,10 +105,21 @@ func solveOne(g *Gen, o *Obligation, workDir string, timeoutMs int) *Verdict {
 	ctx, cancel := context.WithCancel(context.Background())
 	defer cancel()
 	ch := make(chan ans, len(solvers))
-	if o.Cover && timeoutMs > 3000 {
-		timeoutMs = 3000
+	nUse := len(solvers)
+	if o.Cover {
+		nUse = 1
 	}
-	for si, sp := range solvers {
+	if o.TimeoutMs > 0 {
+		timeoutMs = o.TimeoutMs
+	}
+	use := solvers
+	if o.Cover {
+		if timeoutMs > 1500 {
+			timeoutMs = 1500
+		}
+		use = solvers[1:]
+	}
+	for si, sp := range use {
 		file := fmt.Sprintf("%s.%d.smt2", base, si)
 		if err := os.WriteFile(file, []byte(g.oblText(o, sp.head)), 0o644); err != nil {
 			v.Status = "error"
@@ -122,7 +133,7 @@ func solveOne(g *Gen, o *Obligation, workDir string, timeoutMs int) *Verdict {
 		}(sp, file)
 	}
 	var last ans
-	for range solvers {
+	for i := 0; i < nUse; i++ {
 		a := <-ch
 		last = a
 		if a.first == "unsat" || a.first == "sat" {
